@@ -154,6 +154,15 @@ def run_config(cfg, strategy=None, want_choices=False):
                 ev(ev='write', m=name)
                 return value
             body['write_w'] = write_w
+        rdur = cfg.get('readdur', {}).get(name)
+        if rdur:       # a polled parameter whose (first) read hangs: the first round of this poll thread takes long
+            body['r'] = Parameter('r', FloatRange(), default=0)
+
+            def read_r(self, rdur=rdur):
+                ev(ev='slow_read', m=name)
+                s.sleep(rdur)
+                return 1.0
+            body['read_r'] = read_r
         children = cfg.get('pinata', {}).get(name)
         if children is not None:
             def scanModules(self):
